@@ -57,6 +57,7 @@ theorem entry_sound (O : Oracles) (cls : FieldDecl) (x y : PyVal) (op : EntryOp)
   · exact construct_sound O cls _ y hw h
   · exact construct_sound O cls _ y hw h
   · exact construct_sound O cls _ y hw h
+  · exact construct_sound O cls _ y hw h
 
 /-- **C01**: any chain of validating entry points applied to a constructed instance yields a
     well-formed instance -/
